@@ -36,6 +36,14 @@ CHECKS.update({
              text="TLC checks OthersUntouched, PayloadUnderOneId, ValidOrReported, NoForgery, ErrorNotSilent over init / re-key / move / clone / remove / clear scenarios (fresh, existing, colliding destination; nested payload; an untouched second job) with a crash before or inside any step, or one of EIO ENOSPC EACCES EXDEV EROFS at any mutating step followed by the code's handler path. Each fault script is run for real (crash = freeze of all later effects, torn writes, raised OSError), then a fresh session's check(), the directory listing and byte snapshots are compared with the model state and judged by the property's post-conditions; double faults are sampled from the seed.",
              note=FS_NOTE, ref="5 C11, 10.5", engine="tlc+fsshim", level="model_checking"),
 })
+CHECKS.update({
+ "C19": dict(technique="TLA+ generator spec of directory trees and of get_project / get_job / Project() / init_project (spec/discovery/Discovery.tla) enumerated by TLC with the requirements Nearest / Determinism / ExactOnly / JobInnermost / MissingRaises / InitIdempotent; every exported (tree, query, expected answer) materialised and queried on the real code under several path spellings and working directories; harness-generated random trees judged back by TLC (MODE = file)",
+             text="TLC enumerates tree families (full branching to depth 2-3, every spine to depth 5 with a side branch and one symlink, seeded wide depth-5 trees) x every node / through-link / non-existent query, checks the declarative requirements against the code-shaped resolution functions, and exports the expected answer; the driver builds each tree for real (projects, workspaces, id-named children, symlinks), calls get_project(search True/False), Project(), get_job with absolute / relative / cwd spellings and compares path, id or LookupError; init_project on rich existing projects is wrapped in byte + inode/mtime snapshots.",
+             note="trusted: TLC; calibrated rules named in the spec (CAL_Lexical: enclosure judged on the path as written; CAL_Cwd; CAL_Regex); exhaustive only within the stated tree families; assumes nothing above the sandbox is a signac project (checked at start)", ref="5 C19, 10"),
+ "C20": dict(technique="TLA+ model of the schema-version gate and of the migration chain as named sub-steps (spec/discovery/Migration.tla) checked by TLC over the exhaustive product of legacy layouts; every layout written by hand as signac v0/v1 did, the real Project / get_project / init_project / apply_migrations run on it and outcome + byte snapshot compared with the model; random legacy projects judged back by TLC",
+             text="TLC checks Refuse/RefuseFrame (IncompatibleSchemaVersion and an untouched layout iff version != 2, for Project, get_project, get_project from a sub-directory, init_project), MigratePreserves, CollisionLeavesJobs, UpToDateNoop, SecondNoop, OpensAfterwards and JobsNeverLost in every intermediate state of the chain, over versions {absent,0,1,2,3,10} x config location x project names x workspace_dir kinds x cache/history files x job counts; each case is materialised and executed for real, then a second migration and a fresh Project compare ids, state points, documents, files and the project document.",
+             note="trusted: TLC; INI text written by the harness is cross-checked against the vendored configobj at start; only final states of the migration chain are observed on the real code (intermediate states on the spec); absolute / environment-variable workspace_dir values are not modelled", ref="5 C20, 10"),
+})
 def main():
     checks = []
     for pid, c in CHECKS.items():
